@@ -301,6 +301,24 @@ func emitC11Doc(out *Out, r *Rng) {
 					}
 				}
 			}
+			// the package-level functions are the same resolvers with the process defaults (default hasher, default loader)
+			{
+				merklize.SetDocumentLoader(loader)
+				pf, pe := merklize.NewFieldPathFromContext(ctxBytes, rootType, dotted)
+				if (pe == nil) != (ferr == nil) || (pe == nil && fmt.Sprintf("%#v", pf.Parts()) != fmt.Sprintf("%#v", fp.Parts())) {
+					why = append(why, fmt.Sprintf("merklize.NewFieldPathFromContext gives %v (%v), Options.FieldPathFromContext %v (%v)", pf.Parts(), pe, fp.Parts(), ferr))
+				}
+				full := rootType + "." + dotted
+				pc, pce := merklize.NewPathFromContext(ctxBytes, full)
+				oc, oce := opts.PathFromContext(ctxBytes, full)
+				if (pce == nil) != (oce == nil) || (pce == nil && fmt.Sprintf("%#v", pc.Parts()) != fmt.Sprintf("%#v", oc.Parts())) {
+					why = append(why, fmt.Sprintf("merklize.NewPathFromContext gives %v (%v), Options.PathFromContext %v (%v)", pc.Parts(), pce, oc.Parts(), oce))
+				}
+				pd, pde := merklize.NewPathFromDocument(doc, dotted)
+				if (pde == nil) != (err == nil) || (pde == nil && fmt.Sprintf("%#v", pd.Parts()) != fmt.Sprintf("%#v", rp.Parts())) {
+					why = append(why, fmt.Sprintf("merklize.NewPathFromDocument gives %v (%v), ResolveDocPath %v (%v)", pd.Parts(), pde, rp.Parts(), err))
+				}
+			}
 			if ferr != nil && lp.ctxResolvable && (lp.lit != nil || lp.ref != "") {
 				why = append(why, fmt.Sprintf("field %s is reachable through property-scoped contexts only, but the context-side resolver fails: %v", dotted, ferr))
 			}
@@ -312,6 +330,9 @@ func emitC11Doc(out *Out, r *Rng) {
 				}
 			}
 			dt, terr := opts.TypeFromContext(ctxBytes, rootType+"."+strings.Join(noIdx, "."))
+			if pdt, pterr := merklize.TypeFromContext(ctxBytes, rootType+"."+strings.Join(noIdx, ".")); (pterr == nil) != (terr == nil) || pdt != dt {
+				why = append(why, fmt.Sprintf("merklize.TypeFromContext gives %q (%v), Options.TypeFromContext %q (%v)", pdt, pterr, dt, terr))
+			}
 			if terr != nil {
 				o["dt"] = J{"err": "err"}
 			} else {
@@ -343,6 +364,10 @@ func emitC11Doc(out *Out, r *Rng) {
 	// the type identifier
 	var why []string
 	tid, terr := opts.TypeIDFromContext(ctxBytes, rootType)
+	merklize.SetDocumentLoader(loader)
+	if ptid, pterr := merklize.TypeIDFromContext(ctxBytes, rootType); (pterr == nil) != (terr == nil) || ptid != tid {
+		why = append(why, fmt.Sprintf("merklize.TypeIDFromContext gives %q (%v), Options.TypeIDFromContext %q (%v)", ptid, pterr, tid, terr))
+	}
 	if terr != nil || tid != g.sch.Root.IRI {
 		why = append(why, fmt.Sprintf("TypeIDFromContext(%s) = %q, %v; the type stored for the subject is %s", rootType, tid, terr, g.sch.Root.IRI))
 	}
